@@ -35,6 +35,11 @@ fn type_all(ctx: &mut Ctx, evs: &[Ev], report: &Report) -> Option<Rend> {
     r.shown
 }
 
+/// nothing, or the word `k` ended by finish / commit / ctrl-backspace / backspace
+fn earlier_words() -> Vec<Vec<Ev>> {
+    vec![vec![], vec![Ev::ch('k'), Ev::Finish], vec![Ev::ch('k'), Ev::Commit(0)], vec![Ev::ch('k'), Ev::CtrlBs], vec![Ev::ch('k'), Ev::Bs]]
+}
+
 /// is `sub` a subsequence of `list` (in order)?
 fn in_order(list: &[String], sub: &[String]) -> bool {
     let mut it = list.iter();
@@ -87,7 +92,9 @@ pub fn run(report: &Report, thorough: bool) -> Evidence {
                     untypeable.fetch_add(1, Ordering::Relaxed);
                     return;
                 }
-                let evs: Vec<Ev> = e.chars().map(Ev::ch).collect();
+                // bare, and after an earlier word ended in each of the four ways (same context)
+                for earlier in earlier_words() {
+                let evs: Vec<Ev> = earlier.iter().cloned().chain(e.chars().map(Ev::ch)).collect();
                 for ctx in ctxs.iter_mut() {
                     let Some(r) = type_all(ctx, &evs, report) else { continue };
                     checked.fetch_add(1, Ordering::Relaxed);
@@ -102,6 +109,7 @@ pub fn run(report: &Report, thorough: bool) -> Evidence {
                     if e.len() == 3 {
                         samples.offer(|| json!({"kind": "emoticon/phonetic", "typed": e, "result": items}));
                     }
+                }
                 }
             },
             |_| (),
@@ -234,19 +242,17 @@ pub fn run(report: &Report, thorough: bool) -> Evidence {
                 if !typeable(e) {
                     return;
                 }
-                let evs: Vec<Ev> = e.chars().map(Ev::ch).collect();
+                // (every main-zone key of Probhat has a value, so the raw key text is the emoticon)
+                for earlier in earlier_words() {
+                let evs: Vec<Ev> = earlier.iter().cloned().chain(e.chars().map(Ev::ch)).collect();
                 for (ctx, _) in ctxs.iter_mut() {
                     let Some(r) = type_all(ctx, &evs, report) else { continue };
-                    // every key must have produced text for the raw key buffer to equal the emoticon
-                    let raw = crate::fxgraph::read_state(ctx).typed;
-                    if raw != *e {
-                        continue;
-                    }
                     checked.fetch_add(1, Ordering::Relaxed);
                     nontrivial.fetch_add(1, Ordering::Relaxed);
                     if !r.items().contains(emoji) {
                         report.add(Violation::new("C18", "emoticon-emoji-missing", "emoticon-emoji-missing:fixed").opts(&ctx.opts).events(&evs).feat("emoticon", e.clone()).detail(format!("emoticon {:?} typed in fixed mode: emoji {:?} not among {:?}", e, emoji, r.items())));
                     }
+                }
                 }
             },
             |_| (),
